@@ -14,6 +14,7 @@ import (
 	"fmt"
 	"io"
 	"net"
+	"path/filepath"
 	"sort"
 	"sync"
 	"testing"
@@ -28,10 +29,13 @@ import (
 	clusterv1 "github.com/apache/skywalking-banyandb/api/proto/banyandb/cluster/v1"
 	commonv1 "github.com/apache/skywalking-banyandb/api/proto/banyandb/common/v1"
 	databasev1 "github.com/apache/skywalking-banyandb/api/proto/banyandb/database/v1"
+	"github.com/apache/skywalking-banyandb/banyand/internal/storage"
 	"github.com/apache/skywalking-banyandb/banyand/metadata/schema"
 	"github.com/apache/skywalking-banyandb/banyand/queue"
 	"github.com/apache/skywalking-banyandb/banyand/queue/pub"
 	"github.com/apache/skywalking-banyandb/pkg/bytes"
+	"github.com/apache/skywalking-banyandb/pkg/fs"
+	"github.com/apache/skywalking-banyandb/pkg/logger"
 	"github.com/apache/skywalking-banyandb/pkg/verifh"
 )
 
@@ -232,6 +236,13 @@ func (p *proxy) SyncPart(down clusterv1.ChunkedSyncService_SyncPartServer) error
 	}
 }
 
+// brokenReader is a part file the sender cannot read (disk error while streaming).
+type brokenReader struct{ name string }
+
+func (b *brokenReader) Read([]byte) (int, error) { return 0, fmt.Errorf("verif: input/output error") }
+func (b *brokenReader) Path() string             { return b.name }
+func (b *brokenReader) Close() error             { return nil }
+
 // ---- the unit ---------------------------------------------------------------------------------------------
 
 type sentPart struct {
@@ -240,12 +251,17 @@ type sentPart struct {
 	id    uint64
 }
 
-func mkParts(parts []sentPart) []queue.StreamingPartData {
+func mkParts(parts []sentPart, broken ...uint64) []queue.StreamingPartData {
 	var out []queue.StreamingPartData
 	for _, sp := range parts {
 		var fis []queue.FileInfo
 		var total uint64
-		for _, n := range sp.names {
+		for fi, n := range sp.names {
+			if len(broken) > 0 && broken[0] == sp.id && fi == 0 {
+				fis = append(fis, queue.FileInfo{Name: n, Reader: &brokenReader{name: n}})
+				total += uint64(len(sp.files[n]))
+				continue
+			}
 			var buf bytes.Buffer
 			buf.Write(sp.files[n])
 			fis = append(fis, queue.FileInfo{Name: n, Reader: buf.SequentialRead()})
@@ -288,7 +304,7 @@ func TestVerifC17Transfer(t *testing.T) {
 		}
 		return nil
 	}
-	kinds := []string{"none", "flip", "drop", "dup", "swap-near", "swap-far", "early-end"}
+	kinds := []string{"none", "flip", "drop", "dup", "swap-near", "swap-far", "early-end", "read-error"}
 	var nextID uint64 = 100
 	for c := 0; c < verifh.Pick(120, 3000); c++ {
 		caseStart := time.Now()
@@ -326,6 +342,89 @@ func TestVerifC17Transfer(t *testing.T) {
 		}
 		nChunks := max(1, (total+int(chunk)-1)/int(chunk))
 		f := fault{kind: kinds[r.Intn(len(kinds))], at: r.Intn(nChunks)}
+		if f.kind == "read-error" {
+			// the sender cannot read one part of the batch: the part is reported failed, goes through the syncers'
+			// retry handler and must end up installed (the retry reads it fine) or be reported permanently failed
+			px.setPlan(fault{kind: "none"})
+			victim := parts[r.Intn(len(parts))].id
+			ctxR, cancelR := context.WithTimeout(context.Background(), 6*time.Second)
+			resR, errR := cc.SyncStreamingParts(ctxR, mkParts(parts, victim))
+			cancelR()
+			label := fmt.Sprintf("chunk=%d parts=%d sender cannot read part %d", chunk, len(parts), victim)
+			var failed []queue.FailedPart
+			if resR != nil {
+				failed = resR.FailedParts
+			}
+			if errR != nil || resR == nil {
+				// the whole call failed (e.g. no part produced a chunk and the stream ran into its deadline): the
+				// syncer retries the whole batch in that case, nothing is reported per part
+				rec.mu.Lock()
+				_, inst := rec.installed[victim]
+				rec.mu.Unlock()
+				if inst {
+					s.Violation("c17:transfer:unreadable-part-installed", map[string]any{"case": c, "transfer": label, "error": fmt.Sprint(errR)})
+				}
+				cc.Close()
+				s.Count("c17.transfer.transfers", 1)
+				s.Count("c17.transfer.fault.read-error.whole-call-failed", 1)
+				s.Case(label, true)
+				continue
+			}
+			handler := storage.NewFailedPartsHandler(fs.NewLocalFileSystem(), filepath.Join(verifh.Scratch(), "c17-failed"), logger.GetLogger("verif"), 0)
+			retried := map[uint64]int{}
+			permanently, rerr := handler.RetryFailedParts(context.Background(), failed, map[uint64][]*storage.PartInfo{}, func(ids []uint64) ([]queue.FailedPart, error) {
+				var again []sentPart
+				for _, id := range ids {
+					retried[id]++
+					for _, sp := range parts {
+						if sp.id == id {
+							again = append(again, sp)
+						}
+					}
+				}
+				if len(again) == 0 {
+					return nil, nil
+				}
+				c2 := dial(chunk)
+				defer c2.Close()
+				ctx2, cancel2 := context.WithTimeout(context.Background(), 6*time.Second)
+				defer cancel2()
+				r2, e2 := c2.SyncStreamingParts(ctx2, mkParts(again))
+				if r2 != nil {
+					return r2.FailedParts, e2
+				}
+				return nil, e2
+			})
+			time.Sleep(20 * time.Millisecond)
+			rec.mu.Lock()
+			got, inst := rec.installed[victim]
+			rec.mu.Unlock()
+			exact := inst
+			for _, sp := range parts {
+				if sp.id == victim && inst {
+					for _, n := range sp.names {
+						exact = exact && string(got[n]) == string(sp.files[n])
+					}
+				}
+			}
+			perm := false
+			for _, id := range permanently {
+				perm = perm || id == victim
+			}
+			d := map[string]any{"case": c, "transfer": label, "first_attempt_error": fmt.Sprint(errR), "failed_parts_reported": fmt.Sprint(failed), "retry_error": fmt.Sprint(rerr),
+				"parts_the_handler_retried": fmt.Sprint(retried), "permanently_failed": fmt.Sprint(permanently)}
+			switch {
+			case inst && !exact:
+				s.Violation("c17:transfer:installed-part-differs-from-the-sender:read-error", d)
+			case !inst && !perm:
+				s.Violation("c17:transfer:failed-part-neither-retried-nor-reported-permanently-failed", d)
+			}
+			cc.Close()
+			s.Count("c17.transfer.transfers", 1)
+			s.Count("c17.transfer.fault.read-error.applied", 1)
+			s.Case(label, true)
+			continue
+		}
 		px.setPlan(f)
 		ctx, cancel := context.WithTimeout(context.Background(), 6*time.Second)
 		res, serr := cc.SyncStreamingParts(ctx, mkParts(parts))
